@@ -95,6 +95,12 @@ class CReturn:
         self.value, self.line = value, line
 
 
+class CJump:
+    """break / continue"""
+    def __init__(self, kind, line):
+        self.kind, self.line = kind, line
+
+
 class CFunc:
     def __init__(self, name, ret, params, body, line, rel):
         self.name, self.ret, self.params, self.body, self.line, self.rel = name, ret, params, body, line, rel
@@ -248,7 +254,11 @@ class Parser:
             val = None if self.peek().val == ';' else self.expr()
             self.expect(';')
             return [CReturn(val, line)]
-        if tok.val in ('while', 'do', 'switch', 'goto', 'struct', 'typedef', 'break', 'continue'):
+        if tok.val in ('break', 'continue'):
+            self.next()
+            self.expect(';')
+            return [CJump(tok.val, line)]
+        if tok.val in ('while', 'do', 'switch', 'goto', 'struct', 'typedef'):
             raise AnalysisError('%s:%d: construct %r is outside the supported C subset' % (self.rel, line, tok.val))
         s = self.simple()
         self.expect(';')
